@@ -29,6 +29,10 @@ type c11Case struct {
 	// OneParser: all tables are loaded through one Parser (as the package's own test loads
 	// DSDT and SSDT); otherwise each table gets a new Parser on the same tree
 	OneParser bool `json:"oneparser,omitempty"`
+	// Poison (with OneParser): before the program is loaded the parser is given a small table
+	// that it has to reject while working on a deferred block (Name(ZZZ0, Buffer(<Break>){}));
+	// the program must then be parsed as if nothing had happened
+	Poison bool `json:"poison,omitempty"`
 }
 
 // ---------------------------------------------------------------------------
@@ -586,6 +590,18 @@ func c11Run(c c11Case) (fail *vlib.Failure, errLog string) {
 	if c.OneParser {
 		shared = NewParser(&errs, tree)
 	}
+	if c.Poison && shared != nil {
+		buf, hdr := amlTable("SSDT", []byte{0x08, 'Z', 'Z', 'Z', '0', 0x11, 0x03, 0xa5, 0x00})
+		keep = append(keep, buf)
+		rejected := false
+		if pc := vlib.Catch(func() { rejected = shared.ParseAML(200, "SSDT", hdr) != nil }); pc.Panicked {
+			return vlib.Failf("parsing the (malformed) table that precedes the program crashed: %v", pc), errs.String()
+		}
+		if !rejected {
+			return vlib.Failf("VERIF-HARNESS the malformed table that precedes the program was accepted"), ""
+		}
+		errs.Reset()
+	}
 	for ti, objs := range c.Tables {
 		sig := "DSDT"
 		if ti > 0 {
@@ -666,6 +682,9 @@ func c11Run(c c11Case) (fail *vlib.Failure, errLog string) {
 	var extra []string
 	for p := range view {
 		if _, ok := expect[p]; !ok {
+			if c.Poison && view[p].tableHandle == 200 {
+				continue // what the rejected table left behind is not the program's
+			}
 			extra = append(extra, p)
 		}
 	}
